@@ -22,8 +22,10 @@ import (
 	"bytes"
 	"fmt"
 	"io"
+	"os"
 	"strings"
 	"testing"
+	"time"
 
 	kgzip "github.com/klauspost/compress/gzip"
 	"github.com/twmb/franz-go/pkg/kgo"
@@ -120,6 +122,14 @@ func TestRefSelf(t *testing.T) {
 		dec, err := refSnappyDecode(enc, len(x))
 		if err != nil || !bytes.Equal(dec, x) {
 			t.Fatalf("VERIF-INFRA: reference snappy pair does not round-trip %v: %v", p, err)
+		}
+		if dec, err := refSnappyDecode(snappyLiteralOnly(x), len(x)); err != nil || !bytes.Equal(dec, x) {
+			t.Fatalf("VERIF-INFRA: literal-only snappy block does not decode with the reference decoder %v: %v", p, err)
+		}
+		if r, err := kgzip.NewReader(bytes.NewReader(kgzipFrame(x, kgzip.HuffmanOnly, true))); err != nil {
+			t.Fatalf("VERIF-INFRA: klauspost gzip frame %v: %v", p, err)
+		} else if dec, err := io.ReadAll(r); err != nil || !bytes.Equal(dec, x) {
+			t.Fatalf("VERIF-INFRA: klauspost gzip frame does not round-trip %v: %v", p, err)
 		}
 		st := lz4StoredFrame(x, 1<<20)
 		dec, _, err = refLZ4FrameDecode(st, len(x))
@@ -379,10 +389,44 @@ func TestLimit(t *testing.T) {
 		}
 		p := genPayloadLen(t, n)
 		x := p.bytes()
-		kind := rapid.IntRange(1, 5).Draw(t, "codec") // 5 = xerial-framed snappy
+		// 1..4 = the default compressor's own frame of that codec, 5 = xerial-framed snappy,
+		// 6..9 = a valid frame written by a different encoder than the one kgo links for
+		// compression (what other producers put on the wire): LZ4 frame of stored blocks,
+		// zstd streaming frame (several blocks, usually no declared content size), gzip by
+		// klauspost/compress (stored / huffman-only / dynamic blocks, optional header
+		// fields), raw snappy block by the reference encoder
+		kind := rapid.IntRange(1, 9).Draw(t, "codec")
 		var frame []byte
 		var ct kgo.CompressionCodecType
 		var desc string
+		name := ""
+		foreign := kind >= 6
+		switch {
+		case kind == 6:
+			bl := rapid.SampledFrom([]int{1 << 10, 64 << 10, int(limit), int(limit) + 1, 4 << 20}).Draw(t, "storedBlock")
+			frame = lz4StoredFrame(x, bl)
+			ct, name = kgo.CodecLz4, "lz4-stored"
+			desc = fmt.Sprintf("limit=%d lz4 frame of stored blocks of %d bytes payload=%v", limit, bl, p)
+		case kind == 7:
+			w := rapid.SampledFrom([]int{1 << 10, 8 << 10, 32 << 10, 64 << 10}).Draw(t, "window")
+			frame = zstdStreamFrame(x, w)
+			ct, name = kgo.CodecZstd, "zstd-stream"
+			desc = fmt.Sprintf("limit=%d zstd streaming-encoder frame window=%d payload=%v", limit, w, p)
+		case kind == 8:
+			lvl := rapid.SampledFrom([]int{kgzip.NoCompression, kgzip.BestSpeed, kgzip.DefaultCompression, kgzip.BestCompression, kgzip.HuffmanOnly, kgzip.StatelessCompression}).Draw(t, "kgzipLevel")
+			hdr := rapid.Bool().Draw(t, "gzipHeaderFields")
+			frame = kgzipFrame(x, lvl, hdr)
+			ct, name = kgo.CodecGzip, "gzip-klauspost"
+			desc = fmt.Sprintf("limit=%d klauspost gzip level=%d headerFields=%v payload=%v", limit, lvl, hdr, p)
+		case kind == 9:
+			if rapid.Bool().Draw(t, "literalOnly") {
+				frame = snappyLiteralOnly(x)
+			} else {
+				frame = refSnappyEncode(x)
+			}
+			ct, name = kgo.CodecSnappy, "snappy-ref"
+			desc = fmt.Sprintf("limit=%d raw snappy block by the reference encoder payload=%v", limit, p)
+		}
 		if kind == 5 {
 			chunk := rapid.SampledFrom([]int{32 << 10, 1 << 10, int(limit), int(limit) / 2, int(limit) - 1, n + 1, 7777}).Draw(t, "chunk")
 			if chunk < 1 {
@@ -392,25 +436,27 @@ func TestLimit(t *testing.T) {
 			frame, _ = xerialFrame(x, chunk, enc, 1, 1)
 			ct = kgo.CodecSnappy
 			desc = fmt.Sprintf("limit=%d xerial chunk=%d encoder=%d payload=%v", limit, chunk, enc, p)
-		} else {
+			name = "xerial"
+		} else if kind < 5 {
 			pi := genPrefItem(t, kind)
 			frame = kgoFrame(pi, x)
 			ct = kgo.CompressionCodecType(kind)
 			desc = fmt.Sprintf("limit=%d codec=%v payload=%v", limit, pi, p)
+			name = codecName[kind]
 		}
 		got, err, pan := safeDecompress(dec, frame, ct)
 		if pan != "" {
 			t.Fatalf("%s: Decompress panicked: %s", desc, pan)
-		}
-		name := "xerial"
-		if kind < 5 {
-			name = codecName[kind]
 		}
 		if int64(n) > limit {
 			if err == nil {
 				t.Fatalf("%s: a valid frame of %d bytes (> maximum decompressed size %d) was decompressed to %d bytes instead of being rejected", desc, n, limit, len(got))
 			}
 			ev.Class("limit_above_rejected_" + name)
+		} else if foreign && err != nil {
+			// Acceptance of other encoders' valid frames is not part of the property text
+			// (it speaks of the default compressor's output): counted, not asserted.
+			ev.Class("foreign_valid_frame_rejected_" + name)
 		} else {
 			if err != nil {
 				t.Fatalf("%s: a valid frame of %d bytes (<= maximum decompressed size %d) was rejected: %v", desc, n, limit, err)
@@ -646,10 +692,27 @@ func FuzzDecompress(f *testing.F) {
 		f.Add(fr, byte(1))
 		f.Add(fr[16:], byte(4))
 		f.Add(lz4StoredFrame(x, 100), byte(2))
+		f.Add(kgzipFrame(x, kgzip.NoCompression, true), byte(0))
+		f.Add(zstdStreamFrame(x, 1<<10), byte(3))
 	}
 	f.Add(lz4BombFrame(2, fuzzLimit, 7), byte(2))
 	f.Add(zstdStreamFrame(make([]byte, fuzzLimit+1), 128<<10), byte(3))
 	f.Fuzz(func(t *testing.T, data []byte, sel byte) {
+		// Diagnosis aid: the go fuzzing engine kills a worker whose single execution takes
+		// more than 10 s of wall time (it then reports "fuzzing process hung or terminated
+		// unexpectedly") and discards the worker's stderr. With VERIF_FUZZ_TRACE=<dir> the
+		// input in flight is kept in <dir>/exec-<pid> and slow executions in <dir>/slow-*.
+		if d := os.Getenv("VERIF_FUZZ_TRACE"); d != "" {
+			fn := fmt.Sprintf("%s/exec-%d", d, os.Getpid())
+			os.WriteFile(fn, append([]byte{sel}, data...), 0o644)
+			st := time.Now()
+			defer func() {
+				if el := time.Since(st); el > time.Second {
+					os.WriteFile(fmt.Sprintf("%s/slow-%d-%d", d, os.Getpid(), el.Milliseconds()), append([]byte{sel}, data...), 0o644)
+				}
+				os.Remove(fn)
+			}()
+		}
 		kinds := []int{1, 2, 3, 4}
 		in := data
 		switch {
@@ -667,6 +730,8 @@ func FuzzDecompress(f *testing.F) {
 	})
 }
 
+var fuzzCompressors = map[[2]prefItem]kgo.Compressor{}
+
 // FuzzRoundTrip: the round-trip and independent-decoder oracle on fuzzer-chosen payloads.
 func FuzzRoundTrip(f *testing.F) {
 	dec := kgo.DefaultDecompressor()
@@ -682,9 +747,20 @@ func FuzzRoundTrip(f *testing.F) {
 			first.Level = 1 << (8 + uint(level)) // reach the valid lz4 levels too
 		}
 		prefs := []prefItem{first, {Kind: 1 + int(sel>>2)%4}}
-		comp, err := kgo.DefaultCompressor(prefs[0].codec(), prefs[1].codec())
-		if err != nil || comp == nil {
-			t.Fatalf("DefaultCompressor(%v) = %v, %v", prefs, comp, err)
+		// compressors are kept per preference list: building a zstd encoder per execution
+		// costs megabytes of cleared tables, and the fuzzing engine treats an execution
+		// that is slow on a busy machine (10 s) as a crash
+		key := [2]prefItem{prefs[0], prefs[1]}
+		comp := fuzzCompressors[key]
+		if comp == nil {
+			var err error
+			comp, err = kgo.DefaultCompressor(prefs[0].codec(), prefs[1].codec())
+			if err != nil || comp == nil {
+				t.Fatalf("DefaultCompressor(%v) = %v, %v", prefs, comp, err)
+			}
+			if len(fuzzCompressors) < 256 {
+				fuzzCompressors[key] = comp
+			}
 		}
 		var flags []kgo.CompressFlag
 		if disable {
